@@ -243,7 +243,10 @@ class Predictor:
 def gen_chain(rng, case, ty, pred, max_ops, marking_ok=True):
     ver, carrier = case["ver"], case["carrier"]
     ops = []
-    n = rng.choice([2, 3, 5, 8, 13, 21, max_ops, max_ops]) if max_ops > 13 else rng.randint(1, max_ops)
+    if max_ops > 40:
+        n = rng.choice([2, 3, 5, 8, 13, 21, 50, max_ops])
+    else:
+        n = rng.choice([2, 3, 5, 8, 13, 21, max_ops, max_ops]) if max_ops > 13 else rng.randint(1, max_ops)
     n = min(n, max_ops)
     revoked = False
     marks = set()
@@ -706,7 +709,7 @@ def run_cases(run, cases, nm, label):
     good = [(c, r) for c, r in zip(cases, impl) if "badcase" not in r]
     bad = [(c, r) for c, r in zip(cases, impl) if "badcase" in r]
     terms = [model_term(c, r["init"], nm) for c, r in good]
-    model = common.coq_eval_lines(label, HEADER, terms, shard=40)
+    model = eval_by_size(label, terms)
     dis = []
     for (c, r), m in zip(good, model):
         if r["line"] != m:
@@ -714,11 +717,34 @@ def run_cases(run, cases, nm, label):
     return impl, good, bad, dis
 
 
+def eval_by_size(label, terms, limit=90000):
+    """Case files of at most ~90 KB of literals each (literal parsing is the cost), evaluated in parallel."""
+    from concurrent.futures import ThreadPoolExecutor
+    groups, cur, size = [], [], 0
+    for t in terms:
+        if cur and size + len(t) > limit:
+            groups.append(cur)
+            cur, size = [], 0
+        cur.append(t)
+        size += len(t)
+    if cur:
+        groups.append(cur)
+
+    def run(ig):
+        i, g = ig
+        return common.coq_eval_lines("%s%d" % (label, i), HEADER, g, shard=len(g))
+    out = []
+    with ThreadPoolExecutor(max_workers=common.NCPU) as ex:
+        for lines in ex.map(run, enumerate(groups)):
+            out.extend(lines)
+    return out
+
+
 def check(run):
     thorough = run.tier == "thorough"
-    n_chains, max_ops = (6000, 400) if thorough else (600, 40)
+    n_chains, max_ops = (3000, 200) if thorough else (600, 40)
     run.coverage["rule"] = (
-        "chains (quick: 600 of up to 40 operations; thorough: 6000 of up to 400) of new_version (legal change sets, "
+        "chains (quick: 600 of up to 40 operations; thorough: 3000 of up to 200) of new_version (legal change sets, "
         "caller-supplied modified, attempts on unmodifiable properties), revoke and add/remove/clear/set object-marking "
         "operations on objects and dicts of every versionable SDO/SRO type of STIX 2.0 and 2.1 (generated from the frozen "
         "specification tables), timestamps as text / aware / offset / naive datetimes, plus refusal paths (non-versionable "
